@@ -269,6 +269,11 @@ def value_moved_into_block(chk, prog, rule="value-moved-into-block"):
         out_s = out.get("s", "")
         if not ("gc::Gc<" in out_s or "Builder<" in out_s) or f["n"] in VALUE_NOT_KEPT:
             continue
+        if not (f.get("exported") or f.get("reachable")):
+            # a private helper reachable only through the reviewed exceptions is part of them
+            from gcv.props import common as _common
+            if _common.escapes(prog, f["n"], set(VALUE_NOT_KEPT)) is None and list(prog.callers_of(f["n"])):
+                continue
         for i, a in enumerate(ins):
             t = prog.ty(a["ty"])
             if t.get("k") != "param":
